@@ -42,6 +42,10 @@ impl<'a> Cx<'a> {
         } else {
             self.leaves += 1;
             let mut h = self.hasher();
+            if rng.chance(1, 4) {
+                // re-pointing a hasher that has no input yet is legal: a decoy offset first
+                h.set_input_offset(1024 * (1 + rng.below(1 << 20)));
+            }
             h.set_input_offset(off as u64);
             let mut fed = 0;
             while fed < len {
